@@ -7,11 +7,11 @@ def run(ctx, res):
     if not ctx.require_roles(res):
         return
     r, eff, cg = ctx.roles, ctx.eff, ctx.cg
-    d = e3.apply(ctx, res, "C01", floor=40)
+    d = e3.apply(ctx, res, "C01", floor=150)
     # who may write the two fields (an output of the analysis, reported as evidence; every writer reachable from an entry
     # point was covered by the inductive run above)
     writers = {"CS": [], "MS": []}
-    for p, dd in eff.direct.items():
+    for p, dd in [(p_, d_) for (p_, d_) in eff.direct.items() if "#inl" not in p_]:
         for (f, _bb, _si, via) in dd["w_cache"]:
             if f == r.CS:
                 writers["CS"].append(p)
